@@ -160,7 +160,8 @@ def run_concern(pid: str, tier: str, seed: int, runs=None) -> dict:
                 f.props = [pid]
                 import re as _re
                 mt = _re.match(r'emitted::\w+::(\w+)::check_restrictions#rejects-invalid', f.obligation)
-                if mt and mt.group(1) in u.derived_own:
+                mm_ = _re.match(r'emitted::(\w+)::', f.obligation)
+                if mt and mt.group(1) in u.derived_own and (not getattr(u, 'derived_own_ns', None) or any(k[1] == mt.group(1) and u.sp.module_of(k[0]) == mm_.group(1) for k in u.derived_own_ns)):
                     f.sub = 'derived-simple-type-own-facets'
                 # make the schema part of the exit description so that known findings are keyed by program
                 f.exits = [{'file': 'schema:' + rel, 'line': 0, 'text': rel, 'what': 'program'}] + f.exits
